@@ -40,6 +40,7 @@ pub fn run(ctx: &Ctx) -> Report {
      non-empty script naming every subcommand scraped from `imdl --help` / `imdl torrent --help`; all cases non-trivial; distinct by argument vector",
   );
   report.exhaustive = ctx.replay.is_none();
+  report.rule.push_str("; stale scripts of exactly the right length; global --terminal and --quiet; the script printed onto a pseudo-terminal; eight further spellings and states of the directory (through a link, `ghost/../out`, a directory called `-`, trailing slash, absolute, non-UTF-8 working directory, the binary under another name, a directory where a script goes)");
   report.correspondences.push("C19.dispatch: `imdl completions` stdout / files / exit status = Imdlv.Completions.dispatch".into());
   let subs = subcommands(ctx);
   if subs.len() < 5 {
